@@ -77,6 +77,22 @@ type c20Reader struct {
 	run         *simrt.Run
 }
 
+// c20UnknownErr is the k-th read outcome when it is an "unknown" failure. Besides unique values
+// and a value of an uncomparable type, some are bare errnos: the same value comes back every time
+// that failure happens again, and each occurrence is a failure of its own that has to be reported.
+func c20UnknownErr(k, v int) error {
+	switch v {
+	case 2, 5, 8:
+		// an error value of a type that is not comparable (cannot be a map key, `==` on two of them panics)
+		return c20ListErr{fmt.Sprintf("unknown error #%d", k)}
+	case 4, 10:
+		return syscall.ENETDOWN
+	case 7:
+		return syscall.EIO
+	}
+	return &idErr{"unknown", k}
+}
+
 func (r *c20Reader) outcomeErr(k int) error {
 	v := r.variant[k]
 	switch r.script[k] {
@@ -96,11 +112,7 @@ func (r *c20Reader) outcomeErr(k int) error {
 			return &net.OpError{Op: "read", Net: "packet", Err: c20Timeout{}}
 		}
 	case oUnknown:
-		if v%3 == 2 {
-			// an error value of a type that is not comparable (cannot be a map key, `==` on two of them panics)
-			return c20ListErr{fmt.Sprintf("unknown error #%d", k)}
-		}
-		return &idErr{"unknown", k}
+		return c20UnknownErr(k, v)
 	case oFatal:
 		switch v % 4 {
 		case 0:
@@ -200,7 +212,11 @@ func c20Model(script []byte, variant []int, k int) (frames []int, errs []string,
 			}
 			errs = append(errs, c20ProcErr(i, v).Error())
 		case oUnknown:
-			errs = append(errs, (&idErr{"unknown", i}).Error())
+			v := 0
+			if i < len(variant) {
+				v = variant[i]
+			}
+			errs = append(errs, c20UnknownErr(i, v).Error())
 			unknowns++
 		case oFatal:
 			return frames, errs, i, unknowns
